@@ -45,6 +45,17 @@ namespace
             if (cfg.prompt)
                 vt.set_prompt(cfg.prompt);
         }
+        // vtermxx::init on the object in use -> readline::init -> sline::init (storage re-allocated by the classes)
+        void reinit(const c15::Cfg &cfg, c15::Sink *sink)
+        {
+            cap = cfg.cap;
+            vt.init(cfg.cap, cfg.H);
+            vt.set_write_callback(igris::delegate<void, const char *, unsigned int>(w, (void *)sink));
+            vt.set_execute_callback(igris::delegate<void, const char *, unsigned int>(x, (void *)sink));
+            vt.set_signal_callback(igris::delegate<void, int>(s, (void *)sink));
+            if (cfg.prompt)
+                vt.set_prompt(cfg.prompt);
+        }
         igris::sline &line() { return reinterpret_cast<VtermView *>(&vt)->rl.line(); }
         int linecpy(char *dst, size_t size) { return reinterpret_cast<VtermView *>(&vt)->rl.linecpy(dst, size); }
         const char *history(int k) { return reinterpret_cast<VtermView *>(&vt)->rl.history_pointer(k); }
@@ -59,6 +70,7 @@ namespace
         igris::sline sl;
         static const char *impl() { return "cxx"; }
         explicit XSline(unsigned cap) : sl(cap) {}
+        void reinit(unsigned cap, bool) { sl.init(cap); }
         int putchar(char c)
         {
             size_t before = sl.current_size();
@@ -84,6 +96,7 @@ namespace
 } // namespace
 
 VF_SUITE(keys_exhaustive, c15::exhA_count, c15::exhA_run<XTerm>)
+VF_SUITE(keys_reinit, c15::exhR_count, c15::exhR_run<XTerm>)
 VF_SUITE(keys_exhaustive7, c15::exhB_count, c15::exhB_run<XTerm>)
 VF_SUITE(keys_random, c15::rnd_count, c15::rnd_run<XTerm>)
 VF_SUITE(keys_longline, c15::long_count, c15::long_run<XTerm>)
